@@ -18,6 +18,7 @@ import (
 
 	. "verifharness/hlib"
 
+	"github.com/cnotch/ipchub/provider/auth"
 	"github.com/cnotch/ipchub/utils"
 )
 
@@ -37,6 +38,15 @@ type uinfo struct {
 	saves   int
 	deleted bool
 	admin   bool
+	push    string
+	pull    string
+}
+
+// what the generator remembers about an issued token pair (guidance only: nothing is judged with it)
+type tinfo struct {
+	user   string
+	issued int // generator clock at issue
+	dead   bool
 }
 
 type sess struct {
@@ -52,23 +62,27 @@ type sess struct {
 }
 
 type gen struct {
-	c      *Ctx
-	w      *world
-	ops    []string // op@impl
-	raw    []string // op
-	impls  []string
-	users  map[string]*uinfo
-	regd   []string
-	authOn bool
-	nRtsp  int
-	sess   []*sess
-	feats  map[string]bool
+	c           *Ctx
+	w           *world
+	ops         []string // op@impl
+	raw         []string // op
+	impls       []string
+	users       map[string]*uinfo
+	regd        []string
+	authOn      bool
+	nRtsp       int
+	sess        []*sess
+	feats       map[string]bool
+	clock       int
+	toks        []tinfo
+	lastTokUser string // user of the token the last tokFor / tokRef returned (guidance)
 }
 
 func hexs(s string) string { return Hx([]byte(s)) }
 
 func (g *gen) do(op string) string {
 	out := g.w.exec(op)
+	g.note(op, out)
 	g.raw = append(g.raw, op)
 	g.impls = append(g.impls, out)
 	if out != "" {
@@ -77,6 +91,91 @@ func (g *gen) do(op string) string {
 		g.ops = append(g.ops, op)
 	}
 	return out
+}
+
+// note keeps the generator's guidance state (who owns which token, what time it is)
+func (g *gen) note(op, out string) {
+	f := strings.Split(op, ":")
+	switch f[0] {
+	case "li":
+		if strings.HasPrefix(out, "t") {
+			g.toks = append(g.toks, tinfo{user: strings.ToLower(string(Unhx(f[1]))), issued: g.clock})
+		}
+	case "rf":
+		if len(f[1]) > 1 && f[1][0] == 'R' {
+			if k, err := strconv.Atoi(f[1][1:]); err == nil && k < len(g.toks) {
+				if strings.HasPrefix(out, "t") {
+					g.toks = append(g.toks, tinfo{user: g.toks[k].user, issued: g.clock})
+				}
+				g.toks[k].dead = true
+			}
+		}
+	case "ag":
+		n, _ := strconv.Atoi(f[1])
+		g.clock += n
+	}
+}
+
+// does the generator believe this user holds the right on key (evaluated with the real matcher)?
+func (g *gen) holds(name, key string, push bool) bool {
+	u := g.users[name]
+	if u == nil || u.deleted {
+		return false
+	}
+	x := &auth.User{Name: name}
+	x.CopyFrom(&auth.User{Name: name, Admin: u.admin, PushAccess: u.push, PullAccess: u.pull}, false)
+	if push {
+		return x.ValidatePermission(key, auth.PushRight)
+	}
+	return x.ValidatePermission(key, auth.PullRight)
+}
+
+// an access token that should work for `key`, if the generator knows one
+func (g *gen) goodTok(key string, push bool) (string, bool) {
+	var cands []int
+	for k, t := range g.toks {
+		if !t.dead && g.clock-t.issued < 7000 && g.holds(t.user, key, push) {
+			cands = append(cands, k)
+		}
+	}
+	if len(cands) == 0 {
+		return "", false
+	}
+	return "A" + strconv.Itoa(cands[g.c.Rng.Intn(len(cands))]), true
+}
+
+// a token reference for a request on `key`: half of the time one that should be accepted
+func (g *gen) tokFor(key string) string {
+	t := g.tokRef()
+	if g.c.Rng.Chance(55) {
+		if gt, ok := g.goodTok(key, false); ok {
+			t = gt
+		}
+	}
+	g.lastTokUser = ""
+	if len(t) > 1 && t[0] == 'A' {
+		if k, err := strconv.Atoi(t[1:]); err == nil && k < len(g.toks) {
+			g.lastTokUser = g.toks[k].user
+		}
+	}
+	return t
+}
+
+// a user for an RTSP session about `key`
+func (g *gen) userFor(key string, push bool) string {
+	if g.c.Rng.Chance(60) {
+		var cands []string
+		for n := range g.users {
+			if g.holds(n, key, push) {
+				cands = append(cands, n)
+			}
+		}
+		if len(cands) > 0 {
+			sortStrings(cands)
+			return cands[g.c.Rng.Intn(len(cands))]
+		}
+	}
+	return g.pickUser()
 }
 
 func (g *gen) pick(ss []string) string { return ss[g.c.Rng.Intn(len(ss))] }
@@ -110,7 +209,7 @@ func (g *gen) saveOp(name string, via string) {
 	u := g.users[lname]
 	admin := r.Chance(15) || (lname == "root" && r.Chance(80))
 	push, pull := g.pick(rights), g.pick(rights)
-	if r.Chance(25) {
+	if r.Chance(15) {
 		push = ""
 	}
 	pw := g.pick(passwords)
@@ -131,10 +230,10 @@ func (g *gen) saveOp(name string, via string) {
 	}
 	if applied {
 		if u == nil || u.deleted {
-			g.users[lname] = &uinfo{pw: pw, saves: 1, admin: admin}
+			g.users[lname] = &uinfo{pw: pw, saves: 1, admin: admin, push: push, pull: pull}
 		} else {
 			u.saves++
-			u.admin = admin
+			u.admin, u.push, u.pull = admin, push, pull
 			if upd {
 				u.pw = pw
 			}
@@ -248,7 +347,7 @@ func (g *gen) httpOp() {
 	if nonCanon {
 		g.feats["noncanonical"] = true
 	}
-	g.do(fmt.Sprintf("hs:%s:%s:%s", m, hexs(p), g.tokRef()))
+	g.do(fmt.Sprintf("hs:%s:%s:%s", m, hexs(p), g.tokFor(key)))
 }
 
 var apiPaths = []string{"/api/v1/users", "/api/v1/users/nobody", "/api/v1/routes", "/api/v1/routes/nopattern", "/api/v1/streams/no/stream", "/api/v1/streams", "/api/v1/streamsfoo",
@@ -340,6 +439,21 @@ func (g *gen) rtspStep(s *sess) {
 	s.plan = s.plan[1:]
 	f := strings.Split(step, "|") // METHOD|path|ctrl|tr[|nocred]
 	method, p, ctrl, tr := f[0], f[1], f[2], f[3]
+	// rights change while the session is half way: the later steps must see the rights as saved now
+	if (method == "PLAY" || method == "RECORD" || method == "SETUP") && s.user != "" && r.Chance(12) {
+		if u := g.users[s.user]; u != nil && !u.deleted {
+			if r.Chance(75) {
+				g.do(fmt.Sprintf("sv:%s:%s:%s:%s:p%s:0", hexs(s.user), B01(false), hexs(g.pick([]string{"", "/zz"})), hexs(g.pick([]string{"", "/zz"})), hexs(u.pw)))
+				u.saves++
+				u.admin, u.push, u.pull = false, "", ""
+				g.feats["user-updated"] = true
+			} else {
+				g.do("dl:" + hexs(s.user))
+				u.deleted = true
+			}
+			g.feats["narrowed-mid-session"] = true
+		}
+	}
 	cred := "-"
 	if s.kind == "rtsp" {
 		if len(f) > 4 && f[4] == "nocred" {
@@ -431,32 +545,47 @@ func (g *gen) startSession() {
 		j := g.nRtsp
 		g.nRtsp++
 		g.do("ro:" + strconv.Itoa(j))
-		g.sess = append(g.sess, &sess{key: "n" + strconv.Itoa(j), kind: "rtsp", plan: g.planRtsp(false), user: g.pickUser()})
+		plan := g.planRtsp(false)
+		// the user: often one who holds the right the first real step needs
+		user := g.pickUser()
+		for _, st := range plan {
+			f := strings.Split(st, "|")
+			if f[0] == "DESCRIBE" || f[0] == "ANNOUNCE" {
+				user = g.userFor(utils.CanonicalPath(f[1]), f[0] == "ANNOUNCE")
+				break
+			}
+		}
+		g.sess = append(g.sess, &sess{key: "n" + strconv.Itoa(j), kind: "rtsp", plan: plan, user: user})
 	case x < 78:
 		key := g.anyKey()
-		out := g.do(fmt.Sprintf("ws:rtsp:%s:%s", hexs("/streams"+key), g.tokRef()))
+		out := g.do(fmt.Sprintf("ws:rtsp:%s:%s", hexs("/streams"+key), g.tokFor(key)))
 		if strings.HasPrefix(out, "up.") {
-			g.sess = append(g.sess, &sess{key: "w" + out[3:], kind: "wsrtsp", plan: g.planRtsp(true), user: ""})
+			wsUser := ""
+			if tk := g.lastTokUser; tk != "" {
+				wsUser = tk
+			}
+			g.sess = append(g.sess, &sess{key: "w" + out[3:], kind: "wsrtsp", plan: g.planRtsp(true), user: wsUser})
 			g.feats["ws-rtsp"] = true
 		}
 	default:
 		key := g.anyKey()
-		out := g.do(fmt.Sprintf("ws:control:%s:%s", hexs("/streams"+key), g.tokRef()))
+		ctok := g.tokFor(key)
+		out := g.do(fmt.Sprintf("ws:control:%s:%s", hexs("/streams"+key), ctok))
 		if strings.HasPrefix(out, "up.") {
 			wsj, _ := strconv.Atoi(out[3:])
 			ch := g.do("wc:" + out[3:])
 			if strings.HasPrefix(ch, "ch.") {
 				i, _ := strconv.Atoi(ch[3:])
 				plan := []string{"DESCRIBE", "SETUP", "JOIN", "PLAY"}
-				switch r.Intn(5) {
-				case 0:
-					plan = []string{"DESCRIBE", "SETUP", "PLAY", "JOIN"}
+				switch r.Intn(6) {
+				case 0, 5:
+					plan = []string{"DESCRIBE", "SETUP", "PLAY", "JOIN", "JOIN"}
 				case 1:
 					plan = []string{"JOIN", "DESCRIBE", "SETUP", "PLAY", "PAUSE", "PLAY"}
 				case 2:
 					plan = []string{"PLAY", "DESCRIBE", "SETUP", "OTHER", "PLAY", "JOIN", "JOIN"}
 				}
-				g.sess = append(g.sess, &sess{key: ch[3:], kind: "wsp", plan: plan, wsj: wsj, wspi: i, target: key})
+				g.sess = append(g.sess, &sess{key: ch[3:], kind: "wsp", plan: plan, wsj: wsj, wspi: i, target: key, user: ctok})
 				g.feats["wsp"] = true
 			}
 		}
@@ -473,11 +602,15 @@ func (g *gen) wspStep(s *sess) {
 	s.plan = s.plan[1:]
 	if step == "JOIN" {
 		// a data channel: the same URL and token kind as a well-behaved client, or someone else's
-		key := s.target
-		if r.Chance(35) {
+		// a well-behaved client opens the data channel like the control channel: same URL, same token
+		key, tok := s.target, s.user
+		if r.Chance(30) {
 			key = g.anyKey()
 		}
-		out := g.do(fmt.Sprintf("ws:data:%s:%s", hexs("/streams"+key), g.tokRef()))
+		if r.Chance(40) {
+			tok = g.tokFor(key)
+		}
+		out := g.do(fmt.Sprintf("ws:data:%s:%s", hexs("/streams"+key), tok))
 		if strings.HasPrefix(out, "up.") {
 			ch := s.key
 			if r.Chance(8) {
@@ -583,6 +716,9 @@ func (g *gen) generate() {
 		case x < 31:
 			g.do("ag:" + strconv.Itoa(ages[r.Intn(len(ages))]))
 			g.feats["aged"] = true
+			if r.Chance(60) {
+				g.loginOp()
+			}
 		case x < 33:
 			g.do("ex")
 		case x < 55:
@@ -592,7 +728,7 @@ func (g *gen) generate() {
 		case x < 65:
 			key := g.anyKey()
 			ext := g.pick([]string{".flv", ".flv", ".flv", ".mp4", ""})
-			g.do(fmt.Sprintf("ws:none:%s:%s", hexs("/streams"+key+ext), g.tokRef()))
+			g.do(fmt.Sprintf("ws:none:%s:%s", hexs("/streams"+key+ext), g.tokFor(key)))
 		case x < 72:
 			g.startSession()
 		default:
@@ -820,6 +956,7 @@ func run(c *Ctx) {
 			continue
 		}
 		authOn := true
+		diverged := false
 		for j, op := range k.raw {
 			kind := strings.SplitN(op, ":", 2)[0]
 			if op == "auth:0" {
@@ -841,10 +978,13 @@ func run(c *Ctx) {
 						nontrivial = true
 					}
 				}
-				if impl != model {
+				if impl != model && !diverged {
 					c.Find(Finding{Kind: "corr", Class: kind, Case: k.line, Impl: impl, Model: model,
 						Detail: fmt.Sprintf("op #%d %s (%s)", j, op, describe(op))})
-					break // later ops of this history are not comparable
+					// the model's state is no longer the implementation's: later outcomes of this history are
+					// not compared with the model — but the monitor still judges every one of them, its state
+					// follows the implementation's outcomes, not the model's
+					diverged = true
 				}
 			}
 			if verdict != "ok" {
